@@ -19,7 +19,8 @@ func init() {
 		Rules: func(r *Run) {
 			ruleOwnWrapScoped(r, []string{dockerlogPkg}, 2) // a stream that fails is reported: Err/Close of the stream and merge iterators reach every source
 			ruleDaemonLog(r)
-			ruleErrSticky(r, []string{dockerlogPkg}, 1) // "never silently dropped": the recorded fault survives further Next calls
+			ruleErrSticky(r, []string{dockerlogPkg}, 1)              // "never silently dropped": the recorded fault survives further Next calls
+			ruleErrLoop(r, []string{enginePkg, metricPkg, itersPkg}) // a fault recorded by the decoder is asked for (Err) by every consumer loop before it reports success
 		},
 	})
 }
